@@ -15,7 +15,8 @@ MANIFEST = dict(
 OPS = ["tslice", "fslice", "stokes_get", "to_intensity", "to_linear", "to_circular", "to_stokes", "like", "compute",
        "to_dask", "contains", "channel_freqs", "concat", "snippet_i", "snippet_f", "snippet_bad", "time_shift",
        "time_shift_crop", "time_shift_arr", "freq_shift", "fast_len", "coh", "coh_chirp", "chirp", "incoh", "stft",
-       "istft", "r2c", "ufunc", "ufunc_q", "asarray", "transform", "concat_bad", "pickle", "str", "time_shift_tiny", "snippet_q"]
+       "istft", "r2c", "ufunc", "ufunc_q", "asarray", "transform", "concat_bad", "pickle", "str", "time_shift_tiny", "snippet_q",
+       "snippet_tiny"]
 FUNCS = {"tslice": ["core:Signal.__getitem__", "core:Signal._time_slice", "core:Signal.like"],
          "istft": ["contrib.misc:istft"], "stft": ["contrib.misc:stft"], "r2c": ["utils:real_to_complex"],
          "time_shift": ["transforms.transforms:time_shift"], "time_shift_crop": ["transforms.transforms:time_shift"],
@@ -25,7 +26,8 @@ FUNCS = {"tslice": ["core:Signal.__getitem__", "core:Signal._time_slice", "core:
          "to_linear": ["core:DualPolarizationSignal.to_linear"], "to_circular": ["core:DualPolarizationSignal.to_circular"],
          "to_stokes": ["core:DualPolarizationSignal.to_stokes"], "to_intensity": ["core:BasebandSignal.to_intensity"],
          "snippet_i": ["transforms.transforms:snippet"], "time_shift_tiny": ["transforms.transforms:time_shift"],
-         "snippet_q": ["transforms.transforms:snippet", "transforms.transforms:time_shift"], "snippet_f": ["transforms.transforms:snippet", "transforms.transforms:time_shift"],
+         "snippet_q": ["transforms.transforms:snippet", "transforms.transforms:time_shift"],
+         "snippet_tiny": ["transforms.transforms:snippet", "transforms.transforms:time_shift"], "snippet_f": ["transforms.transforms:snippet", "transforms.transforms:time_shift"],
          "ufunc": ["core:Signal.__array_ufunc__"], "fast_len": ["transforms.transforms:fast_len"]}
 
 
@@ -209,6 +211,13 @@ class Prop(PropBase):
             return [z], lambda: pb.time_shift(z, sh, crop=rng.random() < 0.5)
         if call == "snippet_q":
             return [z], lambda: pb.snippet(z, (7 * 1e-6 + 1e-21) * u.s, 8)
+        if call == "snippet_tiny":
+            # a start location a hair (<= 1e-8 sample) after a sample, on a slowly sampled signal so that even that hair is
+            # far above Time's resolution: the input's start_time must not move
+            zl = type(z).like(z, sample_rate=1 * u.Hz)
+            form = rng.choice(["float", "time", "quantity"])
+            t = {"float": 3 + 4e-9, "time": zl.start_time + (5 + 6e-9) * zl.dt, "quantity": (7 + 2e-9) * zl.dt}[form]
+            return [zl, z], lambda: (pb.snippet(zl, t, 8), pb.snippet(zl, t, 4))
         if call == "str":
             return [z], lambda: (str(z), repr(z))
         if call == "pickle":
